@@ -65,7 +65,12 @@ func (d *Driver) Ask(op string, args any) (json.RawMessage, error) {
 	if _, err := d.in.Write(append(req, '\n')); err != nil {
 		return nil, fmt.Errorf("driver write: %w", err)
 	}
+	// a model that does not answer within ten minutes is stopped, so that a check fails loudly instead of hanging
+	watchdog := time.AfterFunc(10*time.Minute, func() { d.cmd.Process.Kill() })
 	line, err := d.out.ReadBytes('\n')
+	if !watchdog.Stop() && err != nil {
+		return nil, fmt.Errorf("driver gave no answer within ten minutes and was stopped (request %s)", truncate(string(req), 300))
+	}
 	if err != nil {
 		return nil, fmt.Errorf("driver read: %w (request %s)", err, truncate(string(req), 300))
 	}
